@@ -528,7 +528,14 @@ def _typed_store(ctx, mod, meths):
                 if isinstance(v, ast.Name):
                     defs = defs or df.all_defs(m)
                     ds = [d for d in defs.get(v.id, []) if d.value is not None]
-                    v = ds[0].value if len(ds) == 1 else v
+                    if len(ds) == 1:
+                        v = ds[0].value
+                    elif ds:
+                        # several bindings: the one written last before the store, in the same straight-line block
+                        prev = [d for d in ds if getattr(d.stmt, "lineno", 0) < a.lineno and getattr(d.stmt, "_xv_parent", None) is getattr(a, "_xv_parent", None) or any(anc is getattr(d.stmt, "_xv_parent", None) for anc in ancestors(a))]
+                        prev = [d for d in prev if getattr(d.stmt, "lineno", 0) < a.lineno]
+                        if prev:
+                            v = max(prev, key=lambda d_: d_.stmt.lineno).value
                 typed = isinstance(v, ast.Call) and ((call_name(v) or "")[:1].isupper() or (call_name(v) or "").split(".")[-1][:1].isupper())
                 mask = unparse(v) == "DELETE_VAR"
                 default = isinstance(v, ast.Call) and isinstance(v.func, ast.Name) and len(v.args) == 1 and unparse(v.args[0]) == "self"
